@@ -359,7 +359,8 @@ func envPickler(x starlark.Value) (module, name string, args starlark.Tuple, err
 
 // envUnpickler provides support for unpickling functions and modules.
 //
-//   - Builtins are unpickled from (NEWOBJ "dawn" "Builtin" (name, receiver)) into (name, receiver)
+//   - Targets are unpickled from (NEWOBJ "dawn" "Target" (label)) into ("target", label)
+//   - Builtins are unpickled from (NEWOBJ "dawn" "Builtin" (name, receiver)) into ("builtin", name, receiver)
 //   - Function code is unpickled from (NEWOBJ "dawn" "FunctionCode" (module, globals, bytecode))
 //     into a dictionary.
 //   - Functions are unpickled from (NEWOBJ "dawn" "Function" (defaults, freevars, code))
@@ -374,7 +375,8 @@ func envUnpickler(module, name string, args starlark.Tuple) (starlark.Value, err
 		if len(args) != 1 {
 			return nil, fmt.Errorf("expcted 1 arg, got %v", len(args))
 		}
-		return args[0], nil
+		// A reference to a target must not compare equal to the string that spells its label.
+		return starlark.Tuple{starlark.String("target"), args[0]}, nil
 	case "Recursion":
 		if len(args) != 1 {
 			return nil, fmt.Errorf("expected 1 arg, got %v", len(args))
@@ -384,7 +386,8 @@ func envUnpickler(module, name string, args starlark.Tuple) (starlark.Value, err
 		if len(args) != 2 {
 			return nil, fmt.Errorf("expected 2 args, got %v", len(args))
 		}
-		return args, nil
+		// Likewise, a builtin must not compare equal to a (name, receiver) tuple.
+		return append(starlark.Tuple{starlark.String("builtin")}, args...), nil
 	case "Required":
 		if len(args) != 0 {
 			return nil, fmt.Errorf("expected 0 args, got %v", len(args))
